@@ -200,6 +200,19 @@ def hand_roundtrip(cards: List[int], c: Counter, who: Optional[str] = None):
                       {'kind': 'hand', 'cards': sorted(cards), 'owner': owner})
             continue
         exp_bin = tuple(1 if i in cards else 0 for i in range(52))
+        if len(cards) % 3 == 0:
+            # the receiver plays from the set it was given (the client removes played cards from it); the same text parsed again -
+            # the same deal on a later board, the same dummy shown to another client in the process - must still mean the whole hand
+            try:
+                got_set.clear()
+                again, again_bin = Client.parse_hand(Client.parse_cards(msg, owner))
+                c.inc('evals')
+                if again != hand or tuple(again_bin) != exp_bin:
+                    c.violate(f'hand:second-parse:{_hcls(cards)}', f'hand message {msg!r} parsed a second time (after the first result had been played from) is read as '
+                                                                   f'{sorted(int(x) for x in again)}', {'kind': 'hand', 'cards': sorted(cards), 'owner': owner})
+                got_set, got_bin = again, again_bin
+            except Exception as e:  # noqa
+                c.violate(f'hand:second-parse-raise:{_hcls(cards)}', f'second parse of {msg!r}: {type(e).__name__}: {e}', {'kind': 'hand', 'cards': sorted(cards), 'owner': owner})
         if got_set != hand or tuple(got_bin) != exp_bin:
             c.violate(f'hand:differs:{_hcls(cards)}', f'hand {sorted(cards)} sent as {msg!r} is read back as {sorted(int(x) for x in got_set)}',
                       {'kind': 'hand', 'cards': sorted(cards), 'owner': owner})
@@ -242,6 +255,54 @@ def holdings_unit(suit: int):
             hand_roundtrip(cards + other, c, who='Dummy')
         c.see('hcls', _hcls(cards))
     return c
+
+
+def check_relay(c: Counter):
+    """The relay path itself: the real Server.bidding_phase is run on its own queues (no threads: the queues are pre-filled with the
+    callers' messages); every line it relays to another seat must be read by a client's parser as the call that was made, and the
+    partner of an alerting player is relayed the bare call."""
+    import pathlib
+    from ..ref import auction as RA
+    auctions = [['1C', 'X', 'XX', 'Pass', 'Pass', 'Pass'], ['Pass', 'Pass', 'Pass', '7NT', 'X', 'Pass', 'Pass', 'Pass'], ['Pass'] * 4,
+                ['1S', '2S', 'Pass', 'Pass', 'X', 'Pass', 'Pass', 'Pass'], ['2H', 'Pass', 'Pass', 'Pass']]
+    for auc in auctions:
+        for dealer in SEATS:
+            for al in ALERTS:
+                for case in CASES:
+                    srv = Server(ip_address='127.0.0.1', port=2000, output_file_path=pathlib.Path('x.json'), board_settings=None)
+                    msgs = []
+                    for i, call in enumerate(auc):
+                        a = RA.seat_at(dealer, i)
+                        m = case_of(Client.create_bid_message(adapt.call_obj(call), adapt.PL[a].formal_name), case) + al
+                        msgs.append((a, call, m))
+                        srv.received_message_queues[adapt.PL[a]].put(m)
+                    rp = {'kind': 'relay', 'auction': auc, 'dealer': dealer, 'alert': al, 'case': case}
+                    c.inc('evals')
+                    c.inc('relayed_auctions')
+                    try:
+                        srv.bidding_phase(adapt.PL[dealer], Vul.NONE)
+                    except Exception as e:  # noqa
+                        c.violate(f'relay:raise:{al.strip() or "noalert"}:{case}', f'Server.bidding_phase on the auction {auc} (dealer {dealer}, messages as {msgs[0][2]!r}) raised {type(e).__name__}: {e}', rp)
+                        continue
+                    for p in SEATS:
+                        q = srv.sent_message_queues[adapt.PL[p]]
+                        got = []
+                        while not q.empty():
+                            got.append(q.get())
+                        formal = {adapt.PL[x].formal_name for x in SEATS}
+                        relayed = [g for g in got if g not in formal and g not in (Server.Message.NULL, Server.Message.PASSED_OUT)]
+                        exp = [(a, call) for a, call, m in msgs if a != p]
+                        if len(relayed) != len(exp):
+                            c.violate(f'relay:count', f'auction {auc} (dealer {dealer}): seat {p} was relayed {len(relayed)} calls, {len(exp)} were made by others', rp)
+                            continue
+                        for line, (a, call) in zip(relayed, exp):
+                            r = _try(MessageInterface.parse_bid, line, adapt.PL[a].formal_name)
+                            if r is not adapt.call_obj(call):
+                                c.violate(f'relay:meaning:{_cls(call)}:{al.strip() or "noalert"}', f'the line {line!r} relayed to {p} is read by a client as {r}; {a} made the call {call} (sent as {[m for x, y, m in msgs if x == a][0]!r})', rp)
+                                break
+                            if al and 'alert' in line.lower() and p == RA.seat_at(a, 2):
+                                c.violate('relay:alert-to-partner', f'the alert of {a} was disclosed to its partner {p}: {line!r}', rp)
+                                break
 
 
 # ------------------------------------------------------------------------------------------------------------------
@@ -428,6 +489,7 @@ def run(tier, seed, workers):
     check_cards(c)
     check_headers(c, list(range(1, 121)) + [10 ** k for k in range(3, 10)])
     check_names(c, tier)
+    check_relay(c)
     ranks = [0, 7, 8, 12] if tier == 'quick' else [0, 7, 8, 9, 12]      # 2 9 T (J) A
     units = [(ranks, m) for m in range(1 << len(ranks))]
     cs = pmap(hands_unit, units, workers)
@@ -445,12 +507,12 @@ def run(tier, seed, workers):
         'states': n, 'transitions': n + tot.get('streams'), 'traces_validated_against_impl': n,
         'evaluations': n, 'distinct_nontrivial': tot.distinct('cls') + tot.distinct('hcls'),
         'call_messages': tot.get('calls'), 'card_messages': tot.get('cards'), 'board_headers': tot.get('headers'),
-        'team_lines': tot.get('teams'), 'connection_lines': tot.get('connects'), 'hands': tot.get('hands'),
+        'auctions_relayed_by_the_real_bidding_phase': tot.get('relayed_auctions'), 'team_lines': tot.get('teams'), 'connection_lines': tot.get('connects'), 'hands': tot.get('hands'),
         'byte_streams_chunked': tot.get('streams'), 'end_of_stream_points': tot.get('eof_points'),
         'end_verdicts_seen': sorted(tot.sets.get('end', [])),
         'rule': 'builder/parser pairs over complete finite domains: 38 calls x 4 seats x 3 letter cases x 5 alert forms through the '
                 'server\'s alert stripping + parse_bid (and the relayed line through a client\'s parse_bid); 52 cards x 4 seats x 2 '
-                'notations x 3 cases; board numbers 1..120 and 10^k x 4 dealers x 4 vulnerabilities; lead prompts; team names = every '
+                'notations x 3 cases; board numbers 1..120 and 10^k x 4 dealers x 4 vulnerabilities; 5 auctions x 4 dealers x 5 alert forms x 3 cases relayed by the real Server.bidding_phase (queues pre-filled) and read by parse_bid, alerts never relayed to the partner; lead prompts; team names = every '
                 f'string of length <= 2 over {ALPHABET!r} plus a tricky list, in team lines and connection lines; hands = every hand '
                 f'of <= 13 cards of the reduced deck (ranks {ranks} x 4 suits) and all 8192 holdings per suit, as own hand and as '
                 'dummy\'s.  Framing: message sequences of length 1..3 over {empty, a, e-acute} with EVERY chunking of the byte '
@@ -495,6 +557,10 @@ def replay(d):
     if k == 'lead':
         got = _try(Client.parse_leader_message, d['msg'], adapt.PL[d['dummy']])
         return isinstance(got, str), f'-> {got}'
+    if k == 'relay':
+        check_relay(c)
+        v = [x for x in c.violations if x.replay.get('auction') == d['auction'] and x.replay.get('dealer') == d['dealer'] and x.replay.get('alert') == d['alert'] and x.replay.get('case') == d['case']]
+        return bool(v), '; '.join(x.message for x in v) or 'relay understood'
     if k == 'frame':
         chunks = [bytes.fromhex(x) for x in d['chunks']]
         got, end = receive_all(chunks, len(d['msgs']), c)
